@@ -125,7 +125,9 @@ CHECKS = {
              'of the reported chain that is known (hidden intermediates skipped, default GObject.Object); interfaces/prerequisites/'
              'properties/signals are exactly those reported, in order; type-struct and is-gtype-struct-for point at each other; boxed '
              'attaches to the same-named record/union; function-pointer members whose first parameter is the instance become vfuncs and '
-             'no others; get-type functions are removed; the error domain lands on the enum found by longest-prefix lookup. '
+             'no others; get-type functions are removed; every error-quark function — kept at top level or moved into a class as a static '
+             'method — gives its domain to the enumeration found by longest-prefix lookup (hypothesis: no two quark functions naming the same '
+             'enumeration report different domains); a reported default value is written verbatim, the empty string included. '
              'Validated only: generated (declarations, dump XML) pairs through the real GDumpParser/MainTransformer.',
         note='Modelled not verified: gdump.c and a real GObject library (inputs start at the dump XML); the C lexer.',
         design='Part B C12'),
@@ -207,7 +209,7 @@ CHECKS = {
 }
 
 # properties whose check currently passes on the unchanged tree and is registered
-CLAIMED = ['C01', 'C04', 'C07', 'C08', 'C11', 'C13', 'C14', 'C16', 'C17', 'C18', 'C19', 'C20']
+CLAIMED = ['C01', 'C04', 'C07', 'C08', 'C11', 'C12', 'C13', 'C14', 'C16', 'C17', 'C18', 'C19', 'C20']
 
 PENDING = {
 }
